@@ -1042,3 +1042,179 @@ func callsEncodedLenHelper(p *packages.Package, call *ast.CallExpr) bool {
 	}
 	return false
 }
+
+// lineLengthsAreByteLengths (C17.R17): the document's methods cut lines at a column with slice expressions
+// (d.Lines[l][:col]) — a column is a byte offset there — so the table of line lengths that positions are clamped
+// against holds byte lengths: every element stored by the method of Document that builds an []int over d.Lines is
+// len(<that line>). A table in another unit (runes, UTF-16 units) clamps a column on a line with a multi-byte
+// character short of the line's end: an edit at the end of such a line lands inside the character before it.
+func lineLengthsAreByteLengths(c *Ctx, rule string) {
+	p := c.pkg("cmd/templ/lspcmd/proxy")
+	info := p.TypesInfo
+	isString := func(e ast.Expr) bool {
+		t := info.TypeOf(e)
+		if t == nil {
+			return false
+		}
+		b, ok := t.Underlying().(*types.Basic)
+		return ok && b.Info()&types.IsString != 0
+	}
+	var methods []*ast.FuncDecl
+	for _, fd := range allFuncDecls(p) {
+		if fd.Recv != nil && fd.Body != nil && recvTypeName(fd.Recv.List[0].Type) == "Document" {
+			methods = append(methods, fd)
+		}
+	}
+	// the anchor: lines are cut at columns
+	cuts := 0
+	for _, fd := range methods {
+		ast.Inspect(fd.Body, func(n ast.Node) bool {
+			if se, ok := n.(*ast.SliceExpr); ok && isString(se.X) && (se.Low != nil || se.High != nil) {
+				cuts++
+			}
+			return true
+		})
+	}
+	if cuts == 0 {
+		c.ok(rule, p.PkgPath+".Document|lines-are-cut-at-byte-columns", "", "no method of Document slices a line at a column: the unit of the length table is not constrained by this clause")
+		return
+	}
+	n := 0
+	for _, fd := range methods {
+		if fd.Type.Results == nil || len(fd.Type.Results.List) != 1 {
+			continue
+		}
+		if sl, ok := info.TypeOf(fd.Type.Results.List[0].Type).(*types.Slice); !ok || !types.Identical(sl.Elem(), types.Typ[types.Int]) {
+			continue
+		}
+		ast.Inspect(fd.Body, func(x ast.Node) bool {
+			rs, ok := x.(*ast.RangeStmt)
+			if !ok || !strings.HasSuffix(types.ExprString(rs.X), ".Lines") {
+				return true
+			}
+			var valOb types.Object
+			if v, ok := rs.Value.(*ast.Ident); ok {
+				valOb = info.ObjectOf(v)
+			}
+			ast.Inspect(rs.Body, func(y ast.Node) bool {
+				as, ok := y.(*ast.AssignStmt)
+				if !ok || len(as.Lhs) != 1 || len(as.Rhs) != 1 {
+					return true
+				}
+				var stored ast.Expr
+				if _, isIdx := ast.Unparen(as.Lhs[0]).(*ast.IndexExpr); isIdx {
+					stored = as.Rhs[0]
+				} else if call, ok := ast.Unparen(as.Rhs[0]).(*ast.CallExpr); ok && types.ExprString(call.Fun) == "append" && len(call.Args) == 2 {
+					stored = call.Args[1]
+				}
+				if stored == nil {
+					return true
+				}
+				n++
+				good := false
+				if call, ok := ast.Unparen(stored).(*ast.CallExpr); ok && len(call.Args) == 1 {
+					if id, ok := call.Fun.(*ast.Ident); ok && id.Name == "len" && isString(call.Args[0]) {
+						switch a := ast.Unparen(call.Args[0]).(type) {
+						case *ast.Ident:
+							good = valOb != nil && info.ObjectOf(a) == valOb
+						case *ast.IndexExpr:
+							good = strings.HasSuffix(types.ExprString(a.X), ".Lines")
+						}
+					}
+				}
+				c.check(good, rule, funcKey(p, fd)+"|line-length-is-byte-length", c.pos(as.Pos()), "the stored length is len(line): bytes, the unit the lines are cut in",
+					fmt.Sprintf("%s stores %s as the length of a line, while %d slice expression(s) of Document's methods cut lines at a column as a byte offset: on a line with a multi-byte character a position at the end of the line is clamped short, and an edit there lands inside the line (or splits a character) — the server's copy differs from the editor's", fd.Name.Name, types.ExprString(stored), cuts))
+				return true
+			})
+			return true
+		})
+	}
+	if n == 0 {
+		c.viol(rule, "anchor-lost:"+p.PkgPath+".Document|line-lengths", "", "no method of Document builds the table of line lengths by ranging over its Lines (one confirmed by reading): nothing is decided")
+	}
+}
+
+// recordedRegardlessOfValue (C02.R26): a method that stores a flag for a name in a map (M[name] = enabled) and records
+// the name in an ordered list appends the name whatever the flag is — the append may be confined to "name not seen
+// yet", never to the flag's value. The rendering pass reads the FINAL flag of every listed name: a name first given
+// disabled and later enabled (templ.KV("active", false) … templ.KV("active", true)) must be in the list.
+func recordedRegardlessOfValue(c *Ctx, rule string) {
+	p := c.pkg(".")
+	info := p.TypesInfo
+	n := 0
+	for _, fd := range allFuncDecls(p) {
+		if fd.Body == nil || fd.Recv == nil {
+			continue
+		}
+		// M[k] = v with M a map[string]bool field, v a bool variable
+		var keyOb, valOb types.Object
+		ast.Inspect(fd.Body, func(x ast.Node) bool {
+			as, ok := x.(*ast.AssignStmt)
+			if !ok || len(as.Lhs) != 1 || len(as.Rhs) != 1 {
+				return true
+			}
+			ix, ok := ast.Unparen(as.Lhs[0]).(*ast.IndexExpr)
+			if !ok {
+				return true
+			}
+			if _, isSel := ast.Unparen(ix.X).(*ast.SelectorExpr); !isSel {
+				return true
+			}
+			mt, ok := info.TypeOf(ix.X).Underlying().(*types.Map)
+			if !ok || !types.Identical(mt.Elem().Underlying(), types.Typ[types.Bool]) {
+				return true
+			}
+			k, ok1 := ast.Unparen(ix.Index).(*ast.Ident)
+			v, ok2 := ast.Unparen(as.Rhs[0]).(*ast.Ident)
+			if ok1 && ok2 {
+				if _, isVar := info.ObjectOf(v).(*types.Var); isVar {
+					keyOb, valOb = info.ObjectOf(k), info.ObjectOf(v)
+				}
+			}
+			return true
+		})
+		if keyOb == nil {
+			continue
+		}
+		var stack []ast.Node
+		ast.Inspect(fd.Body, func(x ast.Node) bool {
+			if x == nil {
+				stack = stack[:len(stack)-1]
+				return true
+			}
+			stack = append(stack, x)
+			as, ok := x.(*ast.AssignStmt)
+			if !ok || len(as.Lhs) != 1 || len(as.Rhs) != 1 {
+				return true
+			}
+			call, ok := ast.Unparen(as.Rhs[0]).(*ast.CallExpr)
+			if !ok || types.ExprString(call.Fun) != "append" || len(call.Args) != 2 {
+				return true
+			}
+			if _, isSel := ast.Unparen(as.Lhs[0]).(*ast.SelectorExpr); !isSel {
+				return true
+			}
+			if id, ok := ast.Unparen(call.Args[1]).(*ast.Ident); !ok || info.ObjectOf(id) != keyOb {
+				return true
+			}
+			n++
+			bad := ""
+			for k := len(stack) - 2; k >= 0; k-- {
+				if is, ok := stack[k].(*ast.IfStmt); ok {
+					ast.Inspect(is.Cond, func(y ast.Node) bool {
+						if id, ok := y.(*ast.Ident); ok && info.ObjectOf(id) == valOb {
+							bad = types.ExprString(is.Cond)
+						}
+						return true
+					})
+				}
+			}
+			c.check(bad == "", rule, funcKey(p, fd)+"|name-recorded-whatever-its-flag", c.pos(as.Pos()), "the name is appended to the ordered list whatever flag is stored for it",
+				fmt.Sprintf("%s appends the name to %s only under `%s`, which reads the flag that is being stored: a name that is first given with the flag off and later with the flag on is in the map as on but never in the list the output is made from — the class is missing from the rendered attribute", fd.Name.Name, types.ExprString(as.Lhs[0]), bad))
+			return true
+		})
+	}
+	if n == 0 {
+		c.viol(rule, "anchor-lost:"+rule, "", "no method of package templ stores a flag per name and appends the name to an ordered list (the class processor's AddClassName was confirmed by reading): nothing is decided")
+	}
+}
